@@ -22,12 +22,17 @@ pub enum HKind {
     /// well distributed, but every clone of the builder hashes differently
     /// (a builder that re-seeds itself when cloned)
     Reseed,
+    /// well distributed; the builder overrides `BuildHasher::hash_one` with a
+    /// function that differs from the streaming path (lawful: each path is
+    /// deterministic, and nothing ties them together - ahash does the same
+    /// under specialisation). A table must stick to one path.
+    OneOff,
 }
 
-pub const ALL_HKINDS: [HKind; 9] = [
+pub const ALL_HKINDS: [HKind; 10] = [
     HKind::Sip, HKind::Fx, HKind::Identity, HKind::LowBits(1),
     HKind::LowBits(2), HKind::LowBits(4), HKind::HighBits, HKind::Const,
-    HKind::Reseed,
+    HKind::Reseed, HKind::OneOff,
 ];
 
 impl HKind {
@@ -37,7 +42,7 @@ impl HKind {
 
     pub fn class(self) -> &'static str {
         match self {
-            HKind::Sip | HKind::Fx | HKind::Reseed => "spread",
+            HKind::Sip | HKind::Fx | HKind::Reseed | HKind::OneOff => "spread",
             HKind::Identity => "identity",
             HKind::LowBits(_) => "lowbits",
             HKind::HighBits => "highbits",
@@ -54,6 +59,7 @@ impl HKind {
             HKind::HighBits => "highbits".into(),
             HKind::Const => "const".into(),
             HKind::Reseed => "reseed".into(),
+            HKind::OneOff => "oneoff".into(),
         }
     }
 
@@ -65,6 +71,7 @@ impl HKind {
             "highbits" => HKind::HighBits,
             "const" => HKind::Const,
             "reseed" => HKind::Reseed,
+            "oneoff" => HKind::OneOff,
             _ => {
                 let b = s.strip_prefix("lowbits:")?.parse().ok()?;
                 HKind::LowBits(b)
@@ -128,6 +135,13 @@ impl BuildHasher for VHasher {
         let sip = std::collections::hash_map::DefaultHasher::new();
         VH { kind: self.kind, salt: self.salt, acc: 0, sip }
     }
+
+    fn hash_one<T: std::hash::Hash>(&self, x: T) -> u64 {
+        let mut h = self.build_hasher();
+        x.hash(&mut h);
+        let v = h.finish();
+        if self.kind == HKind::OneOff { v.rotate_left(23) ^ 0x5DEE_CE66_D1CE_4E5B } else { v }
+    }
 }
 
 impl Hasher for VH {
@@ -144,7 +158,7 @@ impl Hasher for VH {
         let k = self.acc;
         match self.kind {
             HKind::Sip => self.sip.finish(),
-            HKind::Fx => (k.wrapping_add(1)).wrapping_mul(0x9E37_79B9_7F4A_7C15).rotate_left(26),
+            HKind::Fx | HKind::OneOff => (k.wrapping_add(1)).wrapping_mul(0x9E37_79B9_7F4A_7C15).rotate_left(26),
             HKind::Identity => k,
             HKind::LowBits(b) => k & ((1u64 << b.min(16)) - 1),
             HKind::HighBits => k << 57,
